@@ -404,7 +404,8 @@ func c17Build(desc string) any {
 	return v
 }
 
-var c17Steps = []string{"k", "0", "1", "9", "10", "-1", "Field", "tag", "priv", "Tagged", "x.y", "a b", "ab", "-", "Secret"}
+// (the last three: 2^64, 2^64+1 and 2^63 - indexes that wrap around to 0, 1 and a negative number in 64-bit arithmetic)
+var c17Steps = []string{"k", "0", "1", "9", "10", "-1", "Field", "tag", "priv", "Tagged", "x.y", "a b", "ab", "-", "Secret", "18446744073709551616", "18446744073709551617", "9223372036854775808"}
 
 // refStep is ordinary Go indexing: (value, ok, defined)
 func refStep(cur any, step string) (any, bool, bool) {
